@@ -66,6 +66,22 @@ def main(tier):
                 fail(kind='full-factorial', vars=str(d), levels=levels, n_cases=len(got))
             if any((c < lo - 1e-12).any() or (c > up + 1e-12).any() for c in cases):
                 fail(kind='ff-out-of-bounds', vars=str(d), levels=levels)
+        # full factorial with per-variable levels (dict): named, missing (-> 2) and "default" entries
+        names = list(d)
+        ldicts = [{names[0]: 3}, {'default': 3}, {names[-1]: 1, 'default': 3}, {n: 2 + (i % 2) for i, n in enumerate(names)}]
+        for ld in ldicts:
+            ev += 1
+            per_var = [ld.get(n, ld.get('default', 2)) for n in names]
+            per_fac = [lv for n, lv in zip(names, per_var) for _ in range(d[n]['size'])]
+            if int(np.prod(per_fac)) > 400:
+                continue
+            cases = [flat_case(c, d) for c in FullFactorialGenerator(levels=dict(ld))(d)]
+            grids = [np.linspace(l, u, lv) for l, u, lv in zip(lo, up, per_fac)]
+            want = sorted(tuple(p) for p in itertools.product(*grids))
+            got = sorted(tuple(c) for c in cases)
+            nontrivial.add(('ff-dict', combo, str(ld)))
+            if len(got) != len(want) or not np.allclose(np.array(got), np.array(want), rtol=1e-12, atol=1e-12):
+                fail(kind='full-factorial-dict', vars=str(d), levels=str(ld), n_cases=len(got), n_want=len(want))
         # latin hypercube
         for nsamp in (2, 4):
             for seed in (0, 7):
